@@ -60,7 +60,8 @@ CLAIM = {
              "Decimal::from_str(&d.to_string()) returns d (mantissa, scale, sign; a zero printed with a minus sign comes back as plain zero) for "
              "EVERY representable decimal, through the 64-bit and the 128-bit accumulator phase of parse_str_radix_10 and whichever BIG variant "
              "the length selects; Decimal_from_str_shape - every text [-]digits[.digits] with at most 28 places whose digits denote a mantissa "
-             "below 2^96 is read as exactly that number (no rounding, no error). Not proved: the overflow characterisation for division, and "
+             "below 2^96 is read as exactly that number (no rounding, no error). Decimal_div_balances_iff - a quotient the crate returns multiplies back "
+             "to the dividend exactly iff the exact quotient is a decimal with at most 28 places and a 96-bit mantissa (the arithmetic behind F33). Not proved: the overflow characterisation for division, and "
              "that ties in + - * go to even (only the half-unit bound)."),
     "note": "rust_decimal arithmetic outside its exact range (non-terminating quotients, > 28 places, > 96 bits) is tagged and excluded from value comparison in the expression streams; what it does there is now modelled and proved separately (Props/Decimal.lean). winnow combinator semantics are modelled.",
     "design_ref": "DESIGN.md section 6, C08",
@@ -90,7 +91,7 @@ THEOREMS = ["Okane.C08.C08_eval", "Okane.C08.C08_eval_mut", "Okane.C08.C08_typin
             "Okane.Decimal.Decimal_mul_overflow", "Okane.Decimal.Decimal_add_overflow",
             "Okane.Decimal.Decimal_mul_scale_maximal", "Okane.Decimal.Decimal_rescale_maximal",
             "Okane.Decimal.Decimal_rescale_up_val", "Okane.Decimal.Decimal_display_from_str",
-            "Okane.Decimal.Decimal_from_str_shape"]
+            "Okane.Decimal.Decimal_from_str_shape", "Okane.Decimal.Decimal_div_balances_iff"]
 
 EXTRA_IMPORTS = ["Okane.Props.Decimal"]
 
